@@ -730,6 +730,19 @@ def run(ctx):
     named_rt = {(c, plain(m)) for c, m in named}
     bad_rt = {(c, unmangle(c, n)) for c, n in bad}
     reordered = {f[2].get("class") for f in fails if f[2].get("difference") == "order"}
+    # the insertion rule itself: real match_name vs the modelled reading, on every (spec, class) pair
+    for i, sp in enumerate(hm_mod.METHOD_SPECS):
+        cn = data["specs"][i]["class_names"] if i < len(data["specs"]) else {"kind": "other"}
+        for c in classes:
+            model = (cn["kind"] == "str" and cn["v"] == c) or (cn["kind"] == "list" and c in cn["v"])
+            real = bool(sp.match_name(c))
+            if real != model:
+                reordered.add(c)
+                ctx.fail("C20:insertion-rule-differs:%s->%s" % (sp.name, c),
+                         "MethodSpec.match_name(%r) is %s for spec %s (class_names %r) but the modelled rule (string equality / "
+                         "list membership) says %s: regeneration would %s its methods %s %s"
+                         % (c, real, sp.name, sp.class_names, model, "insert" if real else "not insert",
+                            "into" if real else "in", c), {"kind": "rule", "spec": sp.name, "class": c})
     for cls, m in sorted(bad_rt - named_rt):
         if cls in reordered:        # which def of a name wins depends on the order: already reported for the class
             continue
